@@ -49,6 +49,7 @@ def plan(tier, seed):
             specs.append({"family": "corpus", "seed": seed, "n": 1, "mutations": True, "part": part, "parts": 26})
     specs += shards("f1", 1, 1, seed)
     specs.append({"family": "headers", "seed": seed, "n": 1})
+    specs += shards("asts", 3000 if q else 150000, 500 if q else 5000, seed)
     specs.append({"family": "w0", "seed": seed, "n": 1})
     for fam in workloads.SCALING_FAMILIES:
         specs.append({"family": "scaling", "name": fam, "N": 250 if q else 2000, "seed": seed, "n": 1})
@@ -169,6 +170,23 @@ def run_shard(spec, M):
                 M.count("advisory.reused_outcome_differs_from_fresh")
             if i % 997 == 0:
                 M.sample({"family": fam, "text": short(text, 300)})
+    elif fam == "asts":
+        # documents of the parser's shape with hostile names, placeholders and values (also values that mention placeholders):
+        # compiling returns a list, whatever the values are
+        from . import picklecheck as pc
+        for i in range(spec["start"], spec["start"] + spec["n"]):
+            r = rng(seed, ID, "asts", i)
+            doc = pc.AstGen(r, hostile_names=True).doc()
+            pc.assign_ids(doc)
+            M.case(h64(doc))
+            st, res, _, _ = observe.compile_observed(doc)
+            M.count("compile_calls")
+            M.count("generated_asts_compiled")
+            if st != "ok":
+                M.violation("G1.compile", {"what": "exception escaped Compiler.compile (or it did not finish) for a document of the parser's shape", **res},
+                            {"kind": "ast", "doc": doc})
+            elif not isinstance(res, list):
+                M.violation("G1.compile", {"what": "compile did not return a list", "value": repr(res)[:100]}, {"kind": "ast", "doc": doc})
     elif fam == "headers":
         # language headers naming every dialect of the table and every name derived from one (language part alone, other
         # region/script, other case, '_' for '-', a letter more or less), at the top and after a first header
@@ -324,6 +342,11 @@ def run_scaling(spec, M):
 def replay(case, M):
     if case.get("kind") == "shard":
         run_shard(case["spec"], M)
+        return
+    if case.get("kind") == "ast":
+        st, res, _, _ = observe.compile_observed(case["doc"])
+        if st != "ok":
+            M.violation("G1.compile", {"what": "exception escaped Compiler.compile (or it did not finish) for a document of the parser's shape", **res}, case)
         return
     if case.get("kind") == "scaling":
         run_scaling({"name": case["name"], "N": case["N"]}, M)
